@@ -799,7 +799,9 @@ type MidState struct {
 }
 
 func (ms *MidState) siacoinElement(ts V1TransactionSupplement, id types.SiacoinOutputID) (types.SiacoinElement, bool) {
-	if i, ok := ms.elements[id]; ok {
+	// NOTE: ms.elements is shared by all element types, so the index must be
+	// checked against the type-specific slice and the element's ID
+	if i, ok := ms.elements[id]; ok && i < len(ms.sces) && ms.sces[i].SiacoinElement.ID == id {
 		return ms.sces[i].SiacoinElement, true
 	}
 	for _, sce := range ts.SiacoinInputs {
@@ -811,7 +813,7 @@ func (ms *MidState) siacoinElement(ts V1TransactionSupplement, id types.SiacoinO
 }
 
 func (ms *MidState) siafundElement(ts V1TransactionSupplement, id types.SiafundOutputID) (types.SiafundElement, bool) {
-	if i, ok := ms.elements[id]; ok {
+	if i, ok := ms.elements[id]; ok && i < len(ms.sfes) && ms.sfes[i].SiafundElement.ID == id {
 		return ms.sfes[i].SiafundElement, true
 	}
 	for _, sfe := range ts.SiafundInputs {
@@ -823,7 +825,7 @@ func (ms *MidState) siafundElement(ts V1TransactionSupplement, id types.SiafundO
 }
 
 func (ms *MidState) fileContractElement(ts V1TransactionSupplement, id types.FileContractID) (types.FileContractElement, bool) {
-	if i, ok := ms.elements[id]; ok {
+	if i, ok := ms.elements[id]; ok && i < len(ms.fces) && ms.fces[i].FileContractElement.ID == id {
 		rev, ok := ms.fces[i].RevisionElement()
 		if ok {
 			return rev, ok
@@ -844,7 +846,7 @@ func (ms *MidState) fileContractElement(ts V1TransactionSupplement, id types.Fil
 }
 
 func (ms *MidState) storageProofWindowID(ts V1TransactionSupplement, id types.FileContractID) (types.BlockID, bool) {
-	if i, ok := ms.elements[id]; ok && ms.fces[i].FileContractElement.FileContract.WindowStart == ms.base.childHeight() {
+	if i, ok := ms.elements[id]; ok && i < len(ms.fces) && ms.fces[i].FileContractElement.ID == id && ms.fces[i].FileContractElement.FileContract.WindowStart == ms.base.childHeight() {
 		return ms.base.Index.ID, true
 	}
 	for _, sps := range ts.StorageProofs {
